@@ -47,6 +47,7 @@ fn main() {
         "check" => {
             let id: &'static str = Box::leak(args[2].clone().into_boxed_str());
             let cfg = Cfg { id, tier, seed, workers, verif_dir, out_dir, started: Instant::now(), scale };
+            avm::driver::TWIN_MOD.store(if tier == Tier::Quick { 4 } else { 12 }, std::sync::atomic::Ordering::Relaxed);
             // generous wall-clock watchdog around the whole check: its firing is inconclusive, never a verdict
             let limit = std::env::var("AVM_WATCHDOG_S").ok().and_then(|s| s.parse().ok()).unwrap_or(if tier == Tier::Quick { 1800u64 } else { 14400 });
             std::thread::spawn(move || {
